@@ -389,46 +389,69 @@ def r02d(run, C, names):
 
 
 def r02_contains(run):
-    """contains / min_contains / max_contains relations in Rule._parse_contains"""
+    """contains / min_contains / max_contains as a decision table: Rule._parse_contains is interpreted (absint.py) for
+    every item list of length 0..4 whose items are / are not convertible to the contained type, a non-iterable input, and
+    every combination of min_contains / max_contains unset or 2.  With k the number of convertible items the one error
+    reported must be: `contains` when k == 0 (also for a value that cannot be iterated), `min_contains` when 0 < k < min,
+    `max_contains` when k > max, none otherwise - and the input is handed back unchanged."""
+    import itertools
+    from ..absint import Interp, Obj, Raised
     f = run.repo.func("utype.parser.rule", "Rule._parse_contains")
-    fa = analysis(f)
-    from ..cfg import is_handle_error_call
-    rels = {}
-    # the counter is found by role: the local that is incremented
-    counters = sorted({n.ast.target.id for n in fa.cfg.nodes if n.kind == "stmt" and isinstance(n.ast, ast.AugAssign)
-                       and isinstance(n.ast.target, ast.Name) and isinstance(n.ast.op, ast.Add)})
-    if len(counters) != 1:
-        raise AnalysisError(f"R02a: _parse_contains has no single counter (found {counters})")
-    K = counters[0]
-    for n, c in fa.all_calls():
-        if not is_handle_error_call(c) or not c.args:
-            continue
-        ck = kwarg(c.args[0], "constraint") if isinstance(c.args[0], ast.Call) else None
-        cname = ck.value if isinstance(ck, ast.Constant) else None
-        facts = [(unparse(a), p) for a, p in fa.facts.atoms_at(n)]
-        rels[cname] = facts
-    exp = {
-        "contains": lambda fs: (K, False) in fs or (f"not {K}", True) in fs,
-        "min_contains": lambda fs: (f"{K} < cls.min_contains", True) in fs,
-        "max_contains": lambda fs: (f"{K} > cls.max_contains", True) in fs,
-    }
-    for k, pred in exp.items():
-        ok = k in rels and pred(rels[k])
-        run.check("R02a", f, f"`{k}` is reported under its documented relation", ok, construct=f"{k} relation",
-                  message=f"_parse_contains: `{k}` is reported under {rels.get(k)}",
-                  necessity="the count boundary (exactly min / max matching items) is decided wrongly")
-    # counting: +1 exactly on the no-exception path of the item conversion
-    incs = [n for n in fa.cfg.nodes if n.kind == "stmt" and isinstance(n.ast, ast.AugAssign)
-            and unparse(n.ast.target) == K]
-    ok = len(incs) == 1 and isinstance(incs[0].ast.value, ast.Constant) and incs[0].ast.value.value == 1
-    if ok:
-        # the increment is not reachable from the handler
-        for n in fa.cfg.nodes:
-            if n.kind == "handler" and incs[0] in fa.cfg.reach_from_succ(n, kinds=(N,), avoid=[
-                    m for m in fa.cfg.nodes if m.kind == "iter"]):
-                ok = False
-    run.check("R02a", f, "an item counts as contained exactly when its conversion succeeds", ok,
-              construct="contains counting", message="_parse_contains does not count +1 exactly on successful conversions")
+    R = f.cls
+    methods = {m.name: m.node for m in R.methods.values()} if R else {}
+    wrong = {}
+    total = 0
+    inputs = [tuple(c) for n_ in range(0, 5) for c in itertools.product((True, False), repeat=n_)] + ["not-iterable"]
+    for items in inputs:
+        for mn in (None, 2):
+            for mx in (None, 2):
+                reported = []
+
+                def make_error(*a_, **kw):
+                    return Obj("ConstraintError", _exc=True, constraint=kw.get("constraint"), args=a_)
+                exc_mod = Obj("module exc", ConstraintError=make_error, ParseError=lambda *a_, **kw: Obj("ParseError", _exc=True))
+
+                def transformer(item, t_):
+                    if item is not True:
+                        raise Raised("TypeError", ("not convertible",))
+                    return item
+
+                def enter(route=None, options=None, **kw):
+                    return Obj("RuntimeContext", transformer=transformer, route=route)
+                context = Obj("RuntimeContext", enter=enter, handle_error=lambda e, **kw: reported.append(e),
+                              options=Obj("Options"))
+                cls_ = Obj("Rule", contains="the contained type", min_contains=mn, max_contains=mx, __origin__=None)
+                value = 5 if items == "not-iterable" else list(items)
+                ip = Interp(methods=methods, module=f.module, globals_={"exc": exc_mod})
+                try:
+                    got = ip.call_function(f.node, (cls_, value, context), {})
+                except Raised as r:
+                    got = f"raises {r.cls}"
+                total += 1
+                k = 0 if items == "not-iterable" else sum(1 for x in items if x)
+                if k == 0:
+                    want = "contains"
+                elif mn and k < mn:
+                    want = "min_contains"
+                elif mx and k > mx:
+                    want = "max_contains"
+                else:
+                    want = None
+                names = [getattr(e, "constraint", "?") for e in reported]
+                label = f"{'a non-iterable value' if items == 'not-iterable' else f'{len(items)} items, {k} convertible'}, " \
+                        f"min_contains={mn}, max_contains={mx}"
+                if names != ([want] if want else []):
+                    wrong.setdefault(want or "no error", (label, names, [want] if want else []))
+                elif got is not value and got != value:
+                    wrong.setdefault("the value is handed back unchanged", (label, repr(got)[:40], "the input"))
+    for clause in ("contains", "min_contains", "max_contains", "no error", "the value is handed back unchanged"):
+        w = wrong.get(clause)
+        run.check("R02a", f, f"_parse_contains: `{clause}` is reported exactly under its documented relation", w is None,
+                  construct=f"{clause} relation",
+                  message=f"_parse_contains: for {w[0] if w else ''} it reports {w[1] if w else ''} instead of {w[2] if w else ''}",
+                  necessity="the count boundary (exactly min / max matching items) is decided wrongly: an invalid value is "
+                            "accepted or a valid one rejected")
+    run.floor("R02a", "inputs evaluated for _parse_contains", total, 100)
 
 
 def r02f(run):
